@@ -15,7 +15,7 @@ RULE = (
     "e-acute, euro sign, an astral-plane character) of length 0..5 (quick) / 0..6 (thorough) as the 'code' value, crossed with both "
     "values of 'compact'; every length 0..600 of three fixed fillers (repetitive, incompressible-looking, unicode) so that every "
     "padding length (encoded length mod 4 in {0,2,3}) and the characters '+', '/' and '=' all occur in the un-substituted base64; "
-    "nested JSON values (lists, numbers, booleans, null, nested dicts, empty dict) and all option-name keys.  Oracle: "
+    "a size ladder (2^k - 1, 2^k, 2^k + 1 for k = 10..20, up to 1 MiB, compressible and incompressible fillers); nested JSON values (lists, numbers, booleans, null, nested dicts, empty dict) and all option-name keys.  Oracle: "
     "decode_data(encode_data(d)) == d, the encoded text matches [A-Za-z0-9_-]*, and the encoded text is a pure function of d (two "
     "calls agree).  distinct_nontrivial counts dictionaries whose plain base64 contained '+', '/' or '=' (the substitutions were "
     "exercised)."
@@ -98,6 +98,10 @@ def build_cases(tier):
             for f in fillers(n):
                 dicts.append({"code": f, "compact": False, "remove_labels": True})
         cases.append({"family": "LENGTHS", "dicts": dicts, "key": common.hkey("L", lo)})
+    # size ladder: powers of two and their neighbours up to 1 MiB (buffer / window / chunk boundaries of zlib and base64)
+    sizes = sorted({m for k in range(10, 21) for m in (2 ** k - 1, 2 ** k, 2 ** k + 1)} | {1000, 10 ** 4, 10 ** 5, 3 * 10 ** 5, 10 ** 6})
+    for n in sizes:
+        cases.append({"family": "SIZES", "dicts": [{"code": f, "compact": True} for f in fillers(n)] + [{"code": "x", "blob": [fillers(n // 4)[1]] * 4}], "key": common.hkey("Z", n)})
     from ..comp import OPTION_NAMES
 
     nested = [
